@@ -60,7 +60,7 @@ func runC07(c *core.Ctx) {
 		}
 		exxProvenance(c, "C07", s)
 		if es.pkg == "pipe" {
-			stageLifecycleRules(c, s, lifecycleOpts{only: "closing"})
+			stageLifecycleRules(c, s, lifecycleOpts{only: "closing", catchExit: true})
 		}
 	}
 
